@@ -73,17 +73,43 @@ Theorem C08_resp_transparent : forall newid h p,
   frame_out h' p = firstn 4 (frame_out h p) ++ be 4 newid ++ skipn 8 (frame_out h p).
 Proof. exact relay_other_transparent. Qed.
 
-(* for EVERY history (any number of connections, calls, ids chosen by the peers, interleaving
-   of frames of different calls and connections) made of plain labels, without id wrap: the
-   relay model emits exactly the frame sequence of the transparent one-table relay of
-   Spec/RelaySpec.v -- every frame of a call goes to the call's other side with only the id
-   (call req: id and ttl) rewritten, in the order read, until the frame that ends the response *)
-Theorem C08_order : forall maxT cnt0 ls outs st,
+(* WANTED (full statement): for EVERY history of frames of the relayed types the relay emits
+   exactly the frame sequence of the transparent one-table relay of Spec/RelaySpec.v:
+     forall maxT cnt0 ls outs st, max_ok maxT -> (forall c, 0 <= cnt0 c) -> Forall plain' ls ->
+       run maxT false ls (init_state cnt0) = Some (outs, st) -> (forall c, st_count st c < 2 ^ 32) ->
+       exists ss, spec_run (Z.quot maxT ms_ns) ls (mkSS [] cnt0) = Some (outs, ss)
+   where plain' is plain WITHOUT the clause "the lazy parser accepts the call req".
+   That statement is FALSE for the code as it is (C08_order_refuted below: a protocol-valid call
+   whose arg1 does not end within the first frame is dropped, known finding
+   c08:arg1-not-in-first-frame-dropped).  PROVED (C08_order_partial): the statement for all
+   histories -- any number of connections, calls, ids chosen by the peers, interleavings of the
+   frames of different calls and connections -- whose call req frames the relay's lazy parser
+   accepts (arg1 and the arg2 length inside the first frame), routed by the host without
+   appends, without relay-timer events and without id wrap: every frame of a call goes to the
+   call's other side with only the id (call req: id and ttl) rewritten, in the order read, until
+   the frame that ends the response.  Missing besides the refuted clause: histories with
+   appends (covered per call by the C08_append theorems), timer events and host errors (covered by the
+   state invariants C08_remap_injective / C08_fresh_id only). *)
+Theorem C08_order_partial : forall maxT cnt0 ls outs st,
   max_ok maxT -> (forall c, 0 <= cnt0 c) -> Forall plain ls ->
   run maxT false ls (init_state cnt0) = Some (outs, st) ->
   (forall c, st_count st c < 2 ^ 32) ->
   exists ss, spec_run (Z.quot maxT ms_ns) ls (mkSS [] cnt0) = Some (outs, ss).
 Proof. exact relay_refines_spec. Qed.
+
+(* the refuted clause: a first fragment that the fragment parser of C01/C03 accepts (flags =
+   more fragments, ttl 1000, service "s", no headers, no checksum, one chunk holding the first
+   two bytes of arg1) is rejected by the relay's lazy parser, and the relay model (as the code)
+   drops the frame: nothing reaches the destination and no error frame reaches the caller,
+   whereas the specification relay forwards it *)
+Theorem C08_order_refuted : exists p h,
+  bytes_ok p = true /\
+  (exists f, parse_frag_payload c_messageTypeCallReq p = (0, f) /\ f_more f = true /\ f_chunks f = [[97; 98]]) /\
+  fst (lazy_callreq p) <> 0 /\
+  fh_type h = c_messageTypeCallReq /\
+  (exists st', step 120000000000 false (init_state (fun _ => 1)) (LFrame 0%nat h p (HDst 1%nat [])) = Some ([], st')) /\
+  (exists o ss', spec_step 120000 (mkSS [] (fun _ => 1)) (LFrame 0%nat h p (HDst 1%nat [])) = Some ([o], ss')).
+Proof. exact tiny_frame_dropped. Qed.
 
 (* ---- (c) id remapping ---- *)
 (* in every state reachable by ANY history (all label kinds: any frames, host decisions,
@@ -148,16 +174,46 @@ Theorem C08_append : forall flags ttl tr service hdrs ct ckb a1 h a3 appends ck0
     kv_iter (s_theaders (h ++ appends)) = (h ++ appends, true).
 Proof. exact relay_append_correct. Qed.
 
+(* the continuation frames of an appended call (flags, checksum type, checksum, one chunk):
+   the relay overwrites only the checksum bytes, with the running checksum continued over the
+   chunk, and keeps that checksum state for the next frame *)
+Theorem C08_append_continue : forall flags ctb ckb d ck, zlen ckb = ck_size ck -> zlen d <= 65535 ->
+  update_cont_ck (cont_payload flags ctb ckb d) ck = (cont_payload flags ctb (ck_sum (ck_add ck d)) d, ck_add ck d).
+Proof. exact update_cont_layout. Qed.
+
+(* the whole appended call as the destination receives it -- the re-fragmented first frame
+   followed by ANY number of continuation chunks patched that way -- has a valid running
+   checksum chain from the first frame to the last and denotes arg1, pairs ++ appended pairs,
+   and the complete arg3 *)
+Theorem C08_append_whole : forall flags ttl tr service hdrs ct ckb a1 h a3 appends ck0,
+  first_ok tr service hdrs ct ckb a1 (s_theaders h) a3 ->
+  let p := callreq_first flags ttl tr service hdrs ct ckb a1 (s_theaders h) a3 in
+  zlen p <= c_MaxFramePayloadSize ->
+  hs_as (hsel_fold hdrs (mkHsel [] [] [] [])) = c_Thrift ->
+  ck_new ct = Some ck0 ->
+  kvs16_ok h -> kvs16_ok appends -> zlen h + zlen appends <= 65535 ->
+  exists lz fs,
+    lazy_callreq p = (0, lz) /\
+    append_send p lz appends ck0
+      = (0, relay_frag_payloads flags (s_callreq ttl tr service hdrs) true fs, ck_end ck0 fs) /\
+    forall conts,
+      ck_chain ck0 (fs ++ patched (ck_end ck0 fs) conts) /\
+      denote (chunks_of (fs ++ patched (ck_end ck0 fs) conts)) = [a1; s_theaders (h ++ appends); a3 ++ concat (map snd conts)].
+Proof. exact relay_append_whole. Qed.
+
 Print Assumptions C08_max_timeout.
 Print Assumptions C08_ttl.
 Print Assumptions C08_req_transparent.
 Print Assumptions C08_host_view.
 Print Assumptions C08_resp_transparent.
-Print Assumptions C08_order.
+Print Assumptions C08_order_partial.
+Print Assumptions C08_order_refuted.
 Print Assumptions C08_remap_injective.
 Print Assumptions C08_fresh_id.
 Print Assumptions C08_inverse.
 Print Assumptions C08_append.
+Print Assumptions C08_append_continue.
+Print Assumptions C08_append_whole.
 
 (* ---- non-vacuity ---- *)
 (* a concrete call req: service "svc", headers as=thrift cn=me, crc32 checksum field, method "m",
